@@ -51,7 +51,11 @@ type fileSpec struct {
 	Hdrs    []hdrSpec   `json:"hdrs"`
 	Batches []batchSpec `json:"batches"`
 	ViaText bool        `json:"viaText,omitempty"` // write + read back before flattening (parsed file)
-	Aug     *augSpec    `json:"aug,omitempty"`     // second family: file of the shared generator, batches split / duplicated
+	// Bypass: the file is valid only under ValidateOpts{BypassOriginValidation: true} (set on the
+	// file and on every batch): trace numbers are prefixed with TraceODFI instead of the header's ODFI
+	Bypass    bool     `json:"bypass,omitempty"`
+	TraceODFI string   `json:"traceODFI,omitempty"`
+	Aug       *augSpec `json:"aug,omitempty"` // second family: file of the shared generator, batches split / duplicated
 }
 
 // ---------------------------------------------------------------- building the file
@@ -242,18 +246,30 @@ func buildFile(s fileSpec) (f *ach.File, err error) {
 		return finishFile(f, s.ViaText)
 	}
 	f = baseFile()
+	var opts *ach.ValidateOpts
+	if s.Bypass {
+		opts = &ach.ValidateOpts{BypassOriginValidation: true}
+		f.SetValidation(opts)
+	}
 	for _, b := range s.Batches {
 		if b.Hdr < 0 || b.Hdr >= len(s.Hdrs) {
 			return nil, fmt.Errorf("bad header index")
 		}
 		h := s.Hdrs[b.Hdr]
+		th := h // header data used for the trace numbers
+		if s.Bypass && s.TraceODFI != "" {
+			th.ODFI = s.TraceODFI
+		}
 		switch h.Sec {
 		case "IAT":
 			bh := iatHeader(h)
 			bh.BatchNumber = b.Num
 			ib := ach.NewIATBatch(bh)
+			if opts != nil {
+				ib.SetValidation(opts)
+			}
 			for _, e := range b.Entries {
-				ib.AddEntry(iatEntry(h, e))
+				ib.AddEntry(iatEntry(th, e))
 			}
 			if err := ib.Create(); err != nil {
 				return nil, fmt.Errorf("iat batch: %v", err)
@@ -280,8 +296,11 @@ func buildFile(s fileSpec) (f *ach.File, err error) {
 			if err != nil {
 				return nil, err
 			}
+			if opts != nil {
+				bt.SetValidation(opts)
+			}
 			for _, e := range b.Entries {
-				bt.AddEntry(stdEntry(h, b, e))
+				bt.AddEntry(stdEntry(th, b, e))
 			}
 			if err := bt.Create(); err != nil {
 				return nil, fmt.Errorf("batch: %v", err)
